@@ -1533,6 +1533,27 @@ fn with_parens_liberal(expr: &Expression) -> Markup {
     }
 }
 
+/// A literal, or a chain of literals joined by `op`: `2`, `3 + 4`, `2 × 3 × 4`.
+fn is_literal_chain(chain_op: BinaryOperator, expr: &Expression) -> bool {
+    match expr {
+        Expression::Scalar { .. } => true,
+        Expression::BinaryOperator { op, lhs, rhs, .. } if *op == chain_op => {
+            is_literal_chain(chain_op, lhs) && is_literal_chain(chain_op, rhs)
+        }
+        _ => false,
+    }
+}
+
+/// `2 meter`, `2 x`: printed as a juxtaposition, which binds tighter than `×`
+fn is_fused_product(expr: &Expression) -> bool {
+    matches!(
+        expr,
+        Expression::BinaryOperator { op: BinaryOperator::Mul, lhs, rhs, .. }
+            if matches!(**lhs, Expression::Scalar { .. })
+                && matches!(**rhs, Expression::UnitIdentifier { .. } | Expression::Identifier { .. })
+    )
+}
+
 fn pretty_print_binop(op: &BinaryOperator, lhs: &Expression, rhs: &Expression) -> Markup {
     match op {
         BinaryOperator::ConvertTo => {
@@ -1591,8 +1612,25 @@ fn pretty_print_binop(op: &BinaryOperator, lhs: &Expression, rhs: &Expression) -
                         with_parens_liberal(expr)
                     }
                 };
+                // A product on the right keeps its parentheses: `a × (b × c)` is read back
+                // left-associated otherwise, which is a different tree (and, with units or
+                // rounding, a different result). Chains of plain literals are the exception.
+                let rhs_markup = if matches!(
+                    rhs,
+                    Expression::BinaryOperator {
+                        op: BinaryOperator::Mul,
+                        ..
+                    }
+                ) && !is_fused_product(rhs)
+                    && !(is_literal_chain(BinaryOperator::Mul, lhs)
+                        && is_literal_chain(BinaryOperator::Mul, rhs))
+                {
+                    with_parens(rhs)
+                } else {
+                    add_parens_if_needed(rhs)
+                };
 
-                add_parens_if_needed(lhs) + op.pretty_print() + add_parens_if_needed(rhs)
+                add_parens_if_needed(lhs) + op.pretty_print() + rhs_markup
             }
         },
         BinaryOperator::Div => {
@@ -1648,8 +1686,23 @@ fn pretty_print_binop(op: &BinaryOperator, lhs: &Expression, rhs: &Expression) -
                     with_parens_liberal(expr)
                 }
             };
+            // A sum on the right keeps its parentheses (see the product case); e.g.
+            // `-(2 s) + (2 s + min)` is 60 s, but `(-(2 s) + 2 s) + min` is displayed as 1 min.
+            let rhs_markup = if matches!(
+                rhs,
+                Expression::BinaryOperator {
+                    op: BinaryOperator::Add,
+                    ..
+                }
+            ) && !(is_literal_chain(BinaryOperator::Add, lhs)
+                && is_literal_chain(BinaryOperator::Add, rhs))
+            {
+                with_parens(rhs)
+            } else {
+                add_parens_if_needed(rhs)
+            };
 
-            add_parens_if_needed(lhs) + op.pretty_print() + add_parens_if_needed(rhs)
+            add_parens_if_needed(lhs) + op.pretty_print() + rhs_markup
         }
         BinaryOperator::Sub => {
             let add_parens_if_needed = |expr: &Expression| {
